@@ -578,7 +578,89 @@ def r7(prog, ctx):
     ctx.floor("R7", "append-mode opens of object-owned files", n, 2)
 
 
+def _trailing_literal(e):
+    """Literal text a path expression certainly ends with ('...' + "_lock", "{}_{}_collected".format(...))."""
+    if isinstance(e, ast.BinOp) and isinstance(e.op, ast.Add) and isinstance(e.right, ast.Constant) and isinstance(e.right.value, str):
+        return e.right.value
+    if isinstance(e, ast.Call) and isinstance(e.func, ast.Attribute) and e.func.attr == "format" and isinstance(e.func.value, ast.Constant):
+        t = e.func.value.value
+        return t[t.rfind("}") + 1:]
+    if isinstance(e, ast.JoinedStr) and e.values and isinstance(e.values[-1], ast.Constant):
+        return e.values[-1].value
+    return None
+
+
+def marker_suffixes(prog, markers):
+    """suffix -> marker site, for every stage marker (through the helper functions that name marker files)."""
+    out = {}
+    for m, q, f, mst, path in markers:
+        e = resolve_local(f, path, mst.lineno)
+        suf = _trailing_literal(e)
+        if suf is None and isinstance(e, ast.Call) and call_name(e):
+            cands = [g for _m, gq, g in prog.all_functions() if gq == call_name(e).split(".")[-1]]
+            for g in cands:
+                rets = [r for r in walk_no_nested(g) if isinstance(r, ast.Return) and r.value is not None]
+                if rets:
+                    suf = _trailing_literal(resolve_local(g, rets[-1].value, rets[-1].lineno + 1))
+        if suf is None:
+            raise AnalysisError("cannot derive the file-name suffix of the marker created at %s:%d" % (m.rel, mst.lineno))
+        out.setdefault(suf, (m, q, mst))
+    return out
+
+
+def r8(prog, ctx, markers):
+    """A new (not resumed) run publishes its parameters only after the markers of earlier runs in the folder are gone."""
+    sufs = marker_suffixes(prog, markers)
+    iq = prog.module("isoquant.py")
+    sp_calls = []
+    for q, f in iq.functions.items():
+        for st in walk_no_nested(f):
+            if isinstance(st, ast.Expr) and isinstance(st.value, ast.Call) and call_name(st.value) == "save_params":
+                sp_calls.append((q, f, st))
+    if len(sp_calls) != 1:
+        raise AnalysisError("isoquant.py: expected exactly one call of save_params, found %d" % len(sp_calls))
+    q, f, sp = sp_calls[0]
+    blk = sp._parent.body if sp in getattr(sp._parent, "body", []) else getattr(sp._parent, "orelse", [])
+    before = blk[:[i for i, x in enumerate(blk) if x is sp][0]]
+    covered = set()
+    cleaner = None
+    for st in before:
+        calls = []
+        if isinstance(st, ast.If) and src(st.test) in ("not args.resume",) and not st.orelse:
+            calls = [c for x in st.body for c in ast.walk(x) if isinstance(c, ast.Call)]
+        elif isinstance(st, ast.Expr) and isinstance(st.value, ast.Call):
+            calls = [st.value]
+        for c in calls:
+            g = iq.functions.get((call_name(c) or "").split(".")[-1])
+            if g is None:
+                continue
+            removes = [x for x in ast.walk(g) if isinstance(x, ast.Call) and call_name(x) in ("os.remove", "os.unlink")]
+            if not removes:
+                continue
+            for x in ast.walk(g):
+                if isinstance(x, ast.Call) and isinstance(x.func, ast.Attribute) and x.func.attr == "endswith" and x.args:
+                    for k in ast.walk(x.args[0]):
+                        if isinstance(k, ast.Constant) and isinstance(k.value, str):
+                            covered.add(k.value)
+                            cleaner = g
+    missing = [s_ for s_ in sorted(sufs) if not any(s_.endswith(c) for c in covered)]
+    if missing:
+        m, mq, mst = sufs[missing[0]]
+        ctx.fail("R8", sp, q, "save_params(args) with markers %s still on disk" % missing,
+                 "the parameters of a new (not resumed) run are saved while progress markers of an earlier run in the same folder "
+                 "(suffix %s, created e.g. at %s:%d) may still exist: if the new run is killed before the stage that deletes them, "
+                 "--resume - which only requires .params - trusts them and finishes successfully with the earlier run's intermediate "
+                 "results" % (missing, m.rel, mst.lineno))
+    else:
+        ctx.ok("R8", "isoquant.py:%d" % sp.lineno, "save_params is preceded (on the non-resume path) by %s, which removes files ending in %s - "
+               "all marker suffixes %s" % (cleaner.name if cleaner else "?", sorted(covered), sorted(sufs)))
+    ctx.extra["marker_suffixes"] = sorted(sufs)
+
+
 def run(prog, ctx):
+    ctx.rule("R8", "marker file-name suffixes are derived from the marker-creating sites; in isoquant.py the single save_params(args) call "
+                   "is preceded in its block, on the path of a non-resumed run, by a call of a function that os.remove()s files whose "
+                   "names end with every one of those suffixes (invalidate stale progress before publishing a new run identity)")
     ctx.rule("R6", "in a marker-creating function no add/merge/update of an object follows its dump() before the marker")
     ctx.rule("R7", "every open(self.<file>, 'a') of a class is matched by an open(self.<file>, 'w') in its constructor chain")
     ctx.rule("R5", "for every DatasetProcessor method with a --resume skip return: each self.* location it fills after that point and "
@@ -613,6 +695,7 @@ def run(prog, ctx):
     r5(prog, ctx)
     r6(prog, ctx, stage_markers)
     r7(prog, ctx)
+    r8(prog, ctx, stage_markers)
     ctx.assume("byte-equality of recomputed outputs, the .params pickle and external tools are not decided")
     ctx.assume("CPython reference counting is NOT assumed: __del__ and implicit closing of unreferenced files count as 'late'")
     ctx.assume("the read-mapping stage (minimap2) is outside the analysed closure's resume protocol")
